@@ -193,10 +193,12 @@ def generate(rng, tier, idx):
         ops.append({'op': 'misuse'})
     for _ in range(rng.randint(1, 4)):
         op = {'op': 'fit', 'data': _data(rng, kind), 'state': rng.randrange(2**31)}
-        if kind == 'vine':
+        if kind == 'vine' or rng.random() < 0.5:
             a, b = rng.sample(POISONS, 2)
             op['poison'] = [a, b]
             op['pseed'] = rng.randrange(1000)
+        if rng.random() < 0.3:
+            op['scribble'] = True
         if 'switch' in repr(subj['ctor']) and rng.random() < 0.4:
             op['arm'] = True
         if rng.random() < 0.12:
@@ -337,8 +339,19 @@ def pristine_twin(subj, dataspec, state, poison, pseed, arm):
     out = _fit(twin, subj, data, state, poison, pseed, arm)
     rec = {'outcome': outcome_class(out)}
     if out[0] == 'ok':
-        rec['obs'] = obs.observe(twin, subj['kind'], data)
+        rec['obs'] = obs.observe(twin, subj['kind'], data, poison=poison)
     return rec
+
+
+def _scribble(data):
+    """Overwrite a caller-owned training buffer in place."""
+    if isinstance(data, np.ndarray):
+        data[...] = data[::-1].copy() * 3.0 + 17.0
+    elif isinstance(data, pd.DataFrame):
+        for c in data.columns:
+            data[c] = data[c].to_numpy()[::-1] * 3.0 + 17.0
+    elif isinstance(data, pd.Series):
+        data[:] = data.to_numpy()[::-1] * 3.0 + 17.0
 
 
 def _call_fit(model, subj, data):
@@ -482,7 +495,7 @@ def _execute(run, ctx, subj, kind, cls_short, pristine):
                          op.get('arm'))
             if op.get('arm'):
                 ctx.faults['F2_plugin_failure_in_fit'] += 1
-            if kind == 'vine':
+            if p[0] != p[1]:
                 ctx.faults['F3_allocator_garbage:%s/%s' % tuple(p)] += 1
             oc_l, oc_t = outcome_class(out_l), outcome_class(out_t)
             seq.append(what + ('!' if op.get('arm') else '') + ':' + oc_l)
@@ -498,7 +511,7 @@ def _execute(run, ctx, subj, kind, cls_short, pristine):
                         ctx.probes['refit_nonconstant_to_constant'] += 1
                     if not seq[-2].endswith(':ok') and seq[-1].endswith(':ok'):
                         ctx.probes['refused_fit_then_good_fit'] += 1
-            if kind == 'vine' and p[0] != p[1]:
+            if p[0] != p[1]:
                 ctx.nontrivial = True
             cond = {'cls': cls_short, 'opts': _opts(subj), 'refit': refit, 'what': what,
                     'history': [s.split(':')[0] for s in seq][-3:]}
@@ -514,8 +527,25 @@ def _execute(run, ctx, subj, kind, cls_short, pristine):
             elif out_l[0] == 'ok':
                 n_fit_ok += 1
                 last_good = op['data']
-                a = obs.observe(live, kind, data)
-                b = obs.observe(twin, kind, data)
+                if op.get('scribble') and hasattr(data, 'shape'):
+                    # the caller re-uses its training buffer for something else: the fitted
+                    # model must not follow (its state depends on X as it was at fit time)
+                    probe_grid = copy.deepcopy(data)
+                    before_s = obs.observe(live, kind, probe_grid, poison=p[0])
+                    _scribble(data)
+                    after_s = obs.observe(live, kind, probe_grid, poison=p[0])
+                    ctx.probes['training_buffer_overwritten_after_fit'] += 1
+                    ks = obs.diff(before_s, after_s)
+                    if ks:
+                        ctx.violate('O1_state_depends_on_X_at_fit_time_only',
+                                    _subject_name(subj, 'fit'),
+                                    'overwriting the caller\'s training buffer after fit changed '
+                                    'the model in %s' % ks, differs=ks, **cond)
+                    data = probe_grid
+                # observed under the two allocator contents of this fit: anything that reaches
+                # an observation from an uninitialised buffer differs between them
+                a = obs.observe(live, kind, data, poison=p[0])
+                b = obs.observe(twin, kind, data, poison=p[1])
                 keys = obs.diff(a, b)
                 ctx.stats['twin_comparisons'] += 1
                 if pristine is not None and not keys and not op.get('arm'):
@@ -538,13 +568,13 @@ def _execute(run, ctx, subj, kind, cls_short, pristine):
                                         differs=k2, **cond)
                 if keys:
                     oracle = 'O1_refit_equals_fresh_fit' if refit else (
-                        'O5_independent_of_uninitialised_memory' if kind == 'vine'
+                        'O5_independent_of_uninitialised_memory' if p[0] != p[1]
                         else 'O1_two_fresh_fits_equal')
-                    if kind == 'vine' and refit and p[0] != p[1]:
+                    if refit and p[0] != p[1]:
                         # decide which cause: repeat the twin under the live pattern
                         twin2 = _fresh(subj)
                         _fit(twin2, subj, data, op['state'], p[0], op.get('pseed', 0), False)
-                        if not obs.diff(a, obs.observe(twin2, kind, data)):
+                        if not obs.diff(a, obs.observe(twin2, kind, data, poison=p[0])):
                             oracle = 'O5_independent_of_uninitialised_memory'
                     ctx.violate(oracle, _subject_name(subj, 'fit'),
                                 'observations differ in %s (history %s)' % (keys, seq),
